@@ -691,3 +691,43 @@ Inductive wpred := WUser (k : nat) | WField (ub : nat * bound).
     whether or not the item had a where clause of its own *)
 Definition impl_where_clause (n_user : nat) (inferred : list (nat * bound)) : list wpred :=
   map WUser (seq 0 n_user) ++ map WField inferred.
+
+(* ------------------------------------------------------------------ contains_generics (impl/src/fmt/mod.rs:617-717) *)
+
+(** the part of syn::Type that contains_generics inspects *)
+Inductive sty :=
+| SPath (qself : option sty) (segs : list (str * list sty))   (* [<Q as A::B<..>>::C<..>] / [a::b<..>]; [] = no arguments *)
+| SElem (elem : sty)                                           (* array, group, paren, ptr, reference, slice *)
+| STuple (elems : list sty)
+| SOpaque.                                                     (* impl Trait, _, macro, !, verbatim *)
+
+Definition in_params (ps : list str) (id : str) : bool := existsb (str_eqb id) ps.
+
+(** ContainsGenericsExt for syn::Type and for syn::Path.  Path arm: a qualified self type that mentions a
+    parameter decides at once; otherwise a lone identifier is compared with the parameters, any other
+    path is searched segment by segment ([T::Assoc]: first segment without arguments; [X<A, B>]: the
+    type arguments). *)
+Fixpoint contains_generics (ps : list str) (t : sty) : bool :=
+  match ps with [] => false | _ =>
+  match t with
+  | SPath q segs =>
+      (match q with Some qt => contains_generics ps qt | None => false end)
+      || (match segs with
+          | [(id, [])] => in_params ps id
+          | _ =>
+              (fix go (n : nat) (l : list (str * list sty)) : bool :=
+                 match l with
+                 | [] => false
+                 | (id, args) :: l' =>
+                     (match args with
+                      | [] => Nat.eqb n 0 && in_params ps id
+                      | _ => (fix any (a : list sty) : bool :=
+                                match a with [] => false | x :: a' => contains_generics ps x || any a' end) args
+                      end) || go (S n) l'
+                 end) 0%nat segs
+          end)
+  | SElem e => contains_generics ps e
+  | STuple es => (fix any (a : list sty) : bool :=
+                    match a with [] => false | x :: a' => contains_generics ps x || any a' end) es
+  | SOpaque => false
+  end end.
